@@ -1255,7 +1255,11 @@ def reuse_streams(r):
                 viol(ent, "reuse-parse-parse-" + type(e).__name__, "parse(A) then parse(B) on the same object raised %s: %s"
                      % (type(e).__name__, e), rep)
                 continue
-            if ent.norm(val) != ent.norm(vb) or (got != bb and not ent.lossy):
+            try:
+                want = ent.val(ent.parse(bb)[0])       # what a fresh object holds after parsing B's bytes
+            except Exception:  # noqa
+                want = vb
+            if ent.norm(val) != ent.norm(want) or (got != bb and not ent.lossy):
                 viol(ent, "reuse-parse-parse", "parse(A) then parse(B) on the same object holds %s / writes %s instead of B"
                      % (V.render(val)[:160], got.hex()[:120]), dict(rep, got=got.hex()[:4000]))
 
